@@ -28,7 +28,8 @@ RULE = ("states are drawings = sets of placed items on a lattice (canonical key:
         "placement, two further hash seeds (sub-process); each built drawing is translated by the real translator and compared "
         "with the union-find reference (bijection on node classes, labels, ground, components, electrical equality of sources) and, "
         "when well-posed, its DC / w=1 solution with the reference solution; states = distinct drawings, transitions = "
-        "build+translate executions judged; non-trivial = drawing with at least one symbol")
+        "build+translate executions judged; non-trivial = drawing with at least one symbol"
+        ' Additions: the same Schematic object read after every placement (read while drawing); bench values in the symbol-kind cases.')
 ASSUMPTIONS = ["schemdraw geometry", "a drawing in which a label and the ground (or two labels) sit on the same node is not driven (the statement does not say which name wins)"]
 EXPLANATION = "explicit exploration of drawing programs; each is built with the real Schematic/Elements classes and translated by the real circuit_translator"
 
